@@ -183,6 +183,22 @@ def run_tok_job(job, build, corpus, oracle, max_validate=400, step_budget=600000
     except Unmodelled as e:
         out["inconclusive"].append("UNMODELLED %s [%s]" % (e, "/".join(ex.callstack[-3:])))
     except BoundExceeded as e:
+        # a path that exhausts the step budget: non-termination, or just a long run?  Ask the real code on one
+        # concrete member of the path (the native run of any corpus input takes microseconds)
+        hang = None
+        try:
+            m = ex.model()
+            cz = tok.Concretizer(ex, m)
+            argv = cz.argv(ex.notes_words)
+            env = cz.env(g.env_names)
+            if Replayer(build["sets"][fs]["replay"]).hangs((job["grammar"], argv, env), 10):
+                hang = {"kind": "nontermination", "grammar": job["grammar"], "shape": list(shape), "argv": argv, "env": env,
+                        "predicted": ["hang", None], "expected": ["any outcome within the step budget (%s)" % e], "extra": None,
+                        "native": ["timeout", "no answer within 10 s"], "reproduced": True}
+        except Exception:  # noqa: BLE001
+            hang = None
+        if hang:
+            out["hang"] = hang
         out["inconclusive"].append("BOUND %s" % e)
     except ExecError as e:
         out["inconclusive"].append("EXEC-ERROR %s [%s]" % (e, "/".join(ex.callstack[-3:])))
@@ -214,6 +230,8 @@ def run_tok_job(job, build, corpus, oracle, max_validate=400, step_budget=600000
             if c["reproduced"] and isinstance(ex_, dict) and ex_.get("native_text_none_of"):
                 # message-level claims are confirmed on the rendered native text
                 c["reproduced"] = not any(frag in npay for frag in ex_["native_text_none_of"])
+    if out.get("hang"):
+        out["cex"].append(out.pop("hang"))
     return out
 
 
